@@ -197,6 +197,29 @@ fn check_instant(ctx: &mut Ctx, tz: Tz, secs: i64, digits: u32, tag: &str) {
         let j = catch(|| serde_json::to_string(&cval).map_err(|e| e.to_string()).and_then(|t| first_dt(serde_json::from_str::<Value>(&t).map_err(|e| format!("{e} (doc {t})")))));
         expect(ctx, "hayson-roundtrip-in-container", "Hayson encode->decode", j, &want, false, &ctext);
     }
+    // F: the accessors of the value itself, and the constructors from chrono's own types
+    {
+        let lib_dt = DateTime::from(tz.timestamp_opt(secs, nanos).unwrap());
+        match catch(|| (lib_dt.is_utc(), lib_dt.timezone_short_name())) {
+            Ok((u, name)) => {
+                if u != (short == "UTC") {
+                    ctx.violation(&format!("accessor:is_utc:{}", class_of(&want)), &format!("is_utc() = {u} for a timestamp in {}", tz.name()), json!({"zone": tz.name()}));
+                }
+                if name != short {
+                    ctx.violation(&format!("accessor:timezone_short_name:{}", class_of(&want)), &format!("timezone_short_name() = {name:?} for {}, the city name is {short:?}", tz.name()), json!({"zone": tz.name()}));
+                }
+            }
+            Err(p) => ctx.violation(&format!("accessor:{}", panic_sig(&p)), &p.msg, json!({"zone": tz.name()})),
+        }
+        use chrono::TimeZone as _;
+        let utc_want = mdatetime(chrono_tz::UTC, secs, nanos);
+        expect(ctx, "from-chrono-utc", "DateTime::from(chrono::DateTime<Utc>)", catch(|| Ok(DateTime::from(chrono::Utc.timestamp_opt(secs, nanos).unwrap()))), &utc_want, false, &utc_text);
+        let fixed = chrono::FixedOffset::east_opt(want.offset).unwrap().timestamp_opt(secs, nanos).unwrap();
+        expect(ctx, "make_date_time_with_tz", "timezone::make_date_time_with_tz", catch(|| libhaystack::timezone::make_date_time_with_tz(&fixed, &short).map(DateTime::from)), &want, false, &format!("{text} {short}"));
+        let mut any = want.clone();
+        any.tz = String::new();
+        expect(ctx, "make_date_time", "timezone::make_date_time", catch(|| libhaystack::timezone::make_date_time(fixed).map(DateTime::from)), &any, true, &text);
+    }
     // E: the C API: an instant (UTC date + time) and a zone name -> that instant in that zone; getters give it back
     capi_instant(ctx, tz, secs, nanos, &want, &short);
     // D: zone-less constructors: Err or exactly the instant (zone/offset of the result are not prescribed)
